@@ -12,7 +12,7 @@
 (*   ScanDrop       another gate while cur is empty                         *)
 (* A gate is a record with field cls (the library class name).              *)
 (***************************************************************************)
-EXTENDS Integers, Sequences
+EXTENDS BoolOpt
 
 ZB == {"I", "X", "CX", "CCX", "MCX"}
 IsZB(g) == g.cls \in ZB
@@ -32,4 +32,38 @@ ScanStep(ext, gates, st) ==
 RECURSIVE ScanFrom(_, _, _)
 ScanFrom(ext, gates, st) == IF st.i >= Len(ext) THEN st ELSE ScanFrom(ext, gates, ScanStep(ext, gates, st))
 Sections(gates) == ScanFrom(Append(gates, [cls |-> "Sentinel"]), gates, ScanInit).out
+
+(***************************************************************************)
+(* The symbolic execution of one section (Decompiler.__exps_of_section):    *)
+(* every qubit a gate touches gets an entry (initially its own symbol), in  *)
+(* first-touch order;  X negates,  a (multi-)controlled X xors the          *)
+(* conjunction of the control expressions into the target;  the entries     *)
+(* still equal to their own symbol are dropped at the end.  Expressions are *)
+(* sympy-canonical N-forms (BoolOpt), so the result is compared             *)
+(* structurally with the library's.  gs: gates with k (X / MCX / I / BAR)   *)
+(* and w (0-based qubits); names[q + 1] = the symbol name of qubit q.       *)
+(***************************************************************************)
+SectionExprs(gs, names) ==
+  LET Touch(order, e, w) ==       \* check_or_add: new qubits of w, in the order they appear
+        LET RECURSIVE T(_, _, _)
+            T(j, o, f) == IF j > Len(w) THEN <<o, f>>
+                          ELSE IF w[j] \in DOMAIN f THEN T(j + 1, o, f)
+                          ELSE T(j + 1, Append(o, w[j]), [q \in DOMAIN f \cup {w[j]} |-> IF q = w[j] THEN NSym(names[w[j] + 1]) ELSE f[q]])
+        IN T(1, order, e)
+      RECURSIVE F(_, _, _)
+      F(j, order, e) ==
+        IF j > Len(gs) THEN <<order, e>>
+        ELSE LET g == gs[j]
+                 t == Touch(order, e, g.w)
+                 o == t[1]
+                 f == t[2]
+             IN IF g.k = "X" THEN F(j + 1, o, [f EXCEPT ![g.w[1]] = MkNot(f[g.w[1]])])
+                ELSE IF g.k = "MCX" THEN
+                     LET n == Len(g.w)
+                         tgt == g.w[n]
+                     IN F(j + 1, o, [f EXCEPT ![tgt] = MkXor(<<MkAnd({f[g.w[k]] : k \in 1..(n - 1)}), f[tgt]>>)])
+                ELSE F(j + 1, o, f)                      \* identity / barrier: touched, unchanged
+      r == F(1, <<>>, [q \in {} |-> NTrue])
+      changed == SelectSeq(r[1], LAMBDA q : r[2][q] # NSym(names[q + 1]))
+  IN [j \in 1..Len(changed) |-> <<names[changed[j] + 1], r[2][changed[j]]>>]
 =============================================================================
